@@ -119,7 +119,7 @@ def analyse(case: Dict[str, Any], ctx: Any, res: core.CaseResult, max_windows: i
         view = refcp.make_view(kept, models[rank], ld.min_ts)
         rnd = core.rng("win", case["win_seed"])
         tr = next(t for t in case["files"].values() if t["distributedInfo"]["rank"] == rank)
-        for annotation, inst in choose_windows(rnd, view, max_windows):
+        for annotation, inst in (case.get("force_windows") or choose_windows(rnd, view, max_windows)):
             inst_t = (0, 0) if inst is None else (inst if isinstance(inst, tuple) else (inst, inst))
             win = refcp.window(view, annotation, inst_t)
             if win is None:
